@@ -250,3 +250,69 @@ def install(fake):
 
 def uninstall():
     bvvcs.sp, bvhooks.sp = _REAL
+
+
+# ---------------------------------------------------------------------------------------------------
+# Seam conformance: the same world served by real child processes (fake executables first on PATH).
+# If bumpver ever started a child process that does not go through the rebound `sp` attributes, the in-process
+# fake would silently see nothing; comparing the argv traces of the two set-ups turns that into a loud harness error.
+
+_GIT_SCRIPT = r"""#!/bin/sh
+# generated fake git: log argv (NUL separated, one record per line), answer from files in $FAKE_DIR
+{ for a in "$@"; do printf '%s\0' "$a"; done; printf '\n'; } >> "$FAKE_DIR/argv.log"
+case "$1" in
+  rev-parse) echo .git ;;
+  status) cat "$FAKE_DIR/status.txt" ;;
+  tag) case " $* " in *" --list "*|*" -l "*) case " $* " in *" --merged "*) cat "$FAKE_DIR/tags_merged.txt" ;; *) cat "$FAKE_DIR/tags_all.txt" ;; esac ;; esac ;;
+  for-each-ref) cat "$FAKE_DIR/tags_all.txt" ;;
+  branch) cat "$FAKE_DIR/branches.txt" ;;
+  config) if [ -s "$FAKE_DIR/remote.txt" ]; then cat "$FAKE_DIR/remote.txt"; else exit 1; fi ;;
+  *) : ;;
+esac
+exit 0
+"""
+_HOOK_SCRIPT = r"""#!/bin/sh
+printf 'HOOK\0%s\0%s\0%s\0\n' "$0" "$BUMPVER_OLD_VERSION" "$BUMPVER_NEW_VERSION" >> "$FAKE_DIR/argv.log"
+exit @RC@
+"""
+
+
+def path_fake_setup(fake_dir, bin_dir, tags_all=(), tags_merged=None, status=(), remote="upstream"):
+    os.makedirs(fake_dir, exist_ok=True)
+    os.makedirs(bin_dir, exist_ok=True)
+    git = os.path.join(bin_dir, "git")
+    with open(git, "w") as f:
+        f.write(_GIT_SCRIPT)
+    os.chmod(git, 0o755)
+
+    def w(name, lines):
+        with open(os.path.join(fake_dir, name), "w") as f:
+            f.write("".join(l + "\n" for l in lines))
+
+    w("tags_all.txt", tags_all)
+    w("tags_merged.txt", tags_all if tags_merged is None else tags_merged)
+    w("status.txt", status)
+    w("branches.txt", ["  dev    1234567 [origin/dev] other", "* main   89abcde [origin/main] bump"] if remote == "upstream" else ["* main   89abcde bump"])
+    w("remote.txt", ["git@example.invalid:demo/demo.git"] if remote in ("upstream", "url") else [])
+    open(os.path.join(fake_dir, "argv.log"), "w").close()
+
+
+def path_fake_hook(path, rc):
+    with open(path, "w") as f:
+        f.write(_HOOK_SCRIPT.replace("@RC@", str(rc)))
+    os.chmod(path, 0o755)
+
+
+def path_fake_trace(fake_dir):
+    """[[argv...] | ["HOOK", basename, old, new]] in issue order."""
+    out = []
+    with open(os.path.join(fake_dir, "argv.log"), "rb") as f:
+        for rec in f.read().split(b"\0\n"):
+            if not rec:
+                continue
+            parts = [p.decode("utf-8", "replace") for p in rec.split(b"\0")]
+            if parts[0] == "HOOK":
+                out.append(["HOOK", os.path.basename(parts[1]), parts[2], parts[3]])
+            else:
+                out.append(["git"] + parts)
+    return out
